@@ -41,9 +41,10 @@ SieFail(c)  == Failed(c) \/ (c.kind = "full" /\ c.st \in SieStatuses)
 
 \* representation as the reply carries it: header meaning from the reply,
 \* age base (upstream Age, request / response time) from the ledger
+\* (the Date is the origin's, as the ledger knows it, whatever the reply says: a cache that rewrites it changes the age)
 HRep(h, st, b) ==
   [ st |-> st, ccp |-> h.ccp, ma |-> h.ma, fl |-> h.fl, swr |-> h.swr, sie |-> h.sie,
-    ncf |-> h.ncf, date |-> IF h.date >= 0 THEN h.date ELSE b.respT, exp |-> h.exp,
+    ncf |-> h.ncf, date |-> IF "date" \in DOMAIN b /\ b.date >= 0 THEN b.date ELSE IF h.date >= 0 THEN h.date ELSE b.respT, exp |-> h.exp,
     lm |-> h.lm, etag |-> h.etag, vary |-> h.vary, vs |-> h.vs,
     age |-> b.age, reqT |-> b.reqT, respT |-> b.respT ]
 
@@ -221,7 +222,11 @@ OnRet(L, e, line) ==
          !.swrx = IF swrServed THEN L.swrx \cup {[x |-> e.x, tok |-> e.tok, etag |-> L.eff[e.tok].rep.etag, lm |-> L.eff[e.tok].rep.lm]} ELSE L.swrx,
          !.served = IF fromStore THEN L.served @@ (e.x :> e.tok) ELSE L.served,
          !.fuzzy = fuzzy2,
+         \* what the origin's responses (with the 304s that were stored since) say about this representation,
+         \* whatever the reply's own header says
          !.last = [ kind |-> "ret", line |-> line, e |-> e, rq |-> rq, o |-> o, fg |-> fg, resp |-> resp,
+                    erep |-> IF fromStore /\ e.tok \in DOMAIN eff1 /\ e.tok \notin fuzzy2 /\ ~L.faulted /\ ~L.hadconc
+                               THEN eff1[e.tok].rep ELSE rep,
                     fromStore |-> fromStore, ownTok |-> ownTok, ownTag |-> ownTag, contacted |-> contacted,
                     val304 |-> val304, rep |-> rep, ages |-> ages, cands |-> cands, unsafeOK |-> unsafeOK,
                     effBefore |-> L.eff, invalBefore |-> L.inval, newInval |-> inval2 \ L.inval ] ]
@@ -261,8 +266,10 @@ M02(L) ==
   /\ A02(L) =>
        LET R == L.last IN
        /\ ~UnqualifiedNoCache(R.rep)
+       /\ ~UnqualifiedNoCache(R.erep)
        /\ ~Has(R.rq, "no-cache")
        /\ \E a \in R.ages : ~MustRevalidateApplies(R.rep, a)
+       /\ \E a \in R.ages : ~MustRevalidateApplies([R.rep EXCEPT !.ccp = R.erep.ccp, !.fl = R.erep.fl], a)
        /\ (~R.contacted => \E a \in R.ages : ~RequestMaxAgeExceeded(R.rep, a, R.rq))
        /\ (R.rep.ccp = 1 /\ Has(R.rep, "no-cache") /\ R.rep.ncf >= 1 => R.e.h.secret = 0)
   /\ (IsRet(L) => L.last.e.requnch = 1)
